@@ -278,6 +278,30 @@ Section Model.
     do vg <- par_values xs x1s idxs prm;
     Ok (map fst vg, map snd vg, st').
 
+  (* a history of calls on ONE interpolation object.  The layout of the values
+     array is a function of the trial data state id; a call that raises leaves
+     the cache as it was (the code assigns the cache after computing). *)
+  Fixpoint lin_run (g : gdesc) (Fm : manifold) (layout : Z -> list (nat * nat))
+           (st : lin_cache) (calls : list (Z * list T)) : list (res (list T * list T)) :=
+    match calls with
+    | [] => []
+    | (id, xs) :: r =>
+        match lin_call g Fm (layout id) st id xs with
+        | Ok (v, gr, st') => Ok (v, gr) :: lin_run g Fm layout st' r
+        | Err e => Err e :: lin_run g Fm layout st r
+        end
+    end.
+  Fixpoint par_run (g : gdesc) (Fm : manifold) (layout : Z -> list (nat * nat))
+           (st : par_cache) (calls : list (Z * list T)) : list (res (list T * list T)) :=
+    match calls with
+    | [] => []
+    | (id, xs) :: r =>
+        match par_call g Fm (layout id) st id xs with
+        | Ok (v, gr, st') => Ok (v, gr) :: par_run g Fm layout st' r
+        | Err e => Err e :: par_run g Fm layout st r
+        end
+    end.
+
   (* the computable float predicate of the property: every stored grid point
      is a fixed point of "lower" and "nearest", and "upper" is the next one *)
   Fixpoint list_eqb (a b : list T) : bool :=
